@@ -321,7 +321,8 @@ def run(ctx):
     from ..report import Ctx as _Ctx
     from . import c12 as _c12
     sub = _Ctx('C12', 'quick', ctx.src, 0)
-    _c12.run(sub)
+    from ..report import run_lifted as _run_lifted
+    _run_lifted(ctx, _c12, sub)
     lifted = [f for f in sub.findings if f.rule == 'C12.R5']
     for f in lifted:
         ctx.fail('C08.R7', f.key, f.site, f.message + ' - a batch that was executed is then answered with an anonymous too-large error')
@@ -332,7 +333,8 @@ def run(ctx):
     from ..report import Ctx as _LCtx_C08_R8
     from . import c05 as _lsrc_C08_R8
     _sub_C08_R8 = _LCtx_C08_R8('C05', 'quick', ctx.src, 0)
-    _lsrc_C08_R8.run(_sub_C08_R8)
+    from ..report import run_lifted as _run_lifted
+    _run_lifted(ctx, _lsrc_C08_R8, _sub_C08_R8)
     _lifted_C08_R8 = [f for f in _sub_C08_R8.findings if f.rule == 'C05.R3' and '|total' in f.key]
     for f in _lifted_C08_R8:
         ctx.fail('C08.R8', f.key, f.site, f.message)
